@@ -159,18 +159,25 @@ func (a *Adv) RespHello(initHello []byte, keyX509 []byte, own bool, garbage []by
 
 // ReadRespHello processes a RespHello with an initiator state created by InitHello.
 func ReadRespHello(hs *noise.HandshakeState, m []byte) (*Ciphers, []byte, error) {
+	c, key, _, err := OpenRespHello(hs, m)
+	return c, key, err
+}
+
+// OpenRespHello is ReadRespHello which also returns the responder's signature: whoever owns the
+// initiator ephemeral can read it, and may try to pass it off elsewhere (signature reflection).
+func OpenRespHello(hs *noise.HandshakeState, m []byte) (*Ciphers, []byte, []byte, error) {
 	payload, cs1, cs2, err := hs.ReadMessage(nil, m[4:])
 	if err != nil {
-		return nil, nil, err
+		return nil, nil, nil, err
 	}
 	var rh p2pke.RespHello
 	if err := proto.Unmarshal(payload, &rh); err != nil {
-		return nil, nil, err
+		return nil, nil, nil, err
 	}
 	if cs1 == nil || cs2 == nil {
-		return nil, nil, errors.New("no cipher states")
+		return nil, nil, nil, errors.New("no cipher states")
 	}
-	return &Ciphers{I2R: cs1.Cipher(), R2I: cs2.Cipher(), CB: append([]byte{}, hs.ChannelBinding()...)}, rh.KeyX509, nil
+	return &Ciphers{I2R: cs1.Cipher(), R2I: cs2.Cipher(), CB: append([]byte{}, hs.ChannelBinding()...)}, rh.KeyX509, rh.Sig, nil
 }
 
 // InitDone seals an InitDone whose signature is the attacker's (own) or garbage.
@@ -179,6 +186,13 @@ func (a *Adv) InitDone(c *Ciphers, own bool, garbage []byte) []byte {
 	if own {
 		sig = ed25519.Sign(a.Priv, PreSig(PurposeChannelBinding, c.CB))
 	}
+	pb, _ := proto.Marshal(&p2pke.InitDone{Sig: sig})
+	h := Hdr(2)
+	return c.I2R.Encrypt(h, 2, h, pb)
+}
+
+// InitDoneSig seals an InitDone carrying the given signature bytes.
+func InitDoneSig(c *Ciphers, sig []byte) []byte {
 	pb, _ := proto.Marshal(&p2pke.InitDone{Sig: sig})
 	h := Hdr(2)
 	return c.I2R.Encrypt(h, 2, h, pb)
